@@ -436,6 +436,7 @@ class BerAccepted:
         self.root = parse_ber_any(data, 0)
         self.chains = []
         self.typed = []          # (model tree node, BNode) for every primitive-typed TLV
+        self.lists = []          # (model tree node, BNode) for every SEQUENCE OF / SET OF TLV
         self.walk(tree, self.root, self.new_chain())
 
     def new_chain(self):
@@ -465,6 +466,7 @@ class BerAccepted:
                 self.walk(m, node.kids[i], self.new_chain())
                 i += 1
         elif k in ("q", "t"):
+            self.lists.append((tree, node))
             for kid in node.kids:
                 self.walk(tree[3], kid, self.new_chain())
         else:
@@ -472,6 +474,10 @@ class BerAccepted:
 
     def mixed_chains(self):
         return [c for c in self.chains if len(c) >= 2 and len(set(n.form for n in c)) == 2]
+
+    def lists_above_bound(self):
+        """SEQUENCE OF / SET OF values with more elements than the upper bound of a non-extensible SIZE constraint"""
+        return [(t, n) for (t, n) in self.lists if t[2][1] is not None and not t[2][2] and len(n.kids) > t[2][1]]
 
     def negative_in_unsigned(self):
         return [(t, n) for (t, n) in self.typed if t[0] == "i" and int_unsigned_native(t) and n.content and n.content[0] >= 0x80]
@@ -532,5 +538,7 @@ def zero_size_elem_list(tree, syn):
             return zero(t[2])
         if k == "c":
             return syn == "uper" and len(t[1]) == 1 and zero(t[1][0])
+        if k in ("q", "t"):
+            return syn == "uper" and t[2][0] == 0 and t[2][1] == 0 and not t[2][2]
         return False
     return tree_any(tree, lambda t: t[0] in ("q", "t") and zero(t[3]))
